@@ -15,9 +15,9 @@ HARNESSES = [
 ] + [
   H('entity_attr_t%d' % t, 'c', 'harness/C02/h_entattr.c', repo_srcs=['src/exp2cxx/classes_entity.c', 'src/exp2cxx/classes_attribute.c', 'src/exp2cxx/classes_misc.c', 'src/exp2cxx/class_strings.c'], defs={'ATYPE': t}, unwind=170, object_bits=11,
     cflags=['-I/repo/src/exp2cxx', '-fno-builtin', '-include', '/verif/harness/C17/prelude_bufsiz.h'], shadow_scope=True, no_checks=True, models=['lib/cmodels/sprintf_null.c'], allow_undef=['SUBTYPEto_string', 'format_for_std_stringout', 'print_typechain'],
-    bounds='ENTITYincode_print on one entity with one attribute of %s: OPTIONAL, UNIQUE, derived, inverse, redeclared and ABSTRACT symbolic' % ('a defined type', 'entity type', 'a builtin type')[t],
+    bounds='ENTITYincode_print on one entity with one attribute of %s: OPTIONAL, UNIQUE, derived, inverse, redeclared and ABSTRACT symbolic' % ('a defined type', 'entity type', 'a builtin type', 'an anonymous aggregate type (print_typechain stubbed)')[t],
     stubs=['fprintf: structured capture (statement recognised by its format literal, string arguments by their first bytes)', 'EXPRto_string: attribute name text (attr or SELF\\\\sup.attr) / fixed text', 'format_for_stringout: fixed text', 'shadow express headers (Scope_.u as a struct)', 'BUFSIZ := 63 (prelude)', 'built-in pointer checks off (functional property; memory safety of these printers is not claimed)'],
-    out_of_claim='several attributes and their order, supertypes/subtypes lists, SUPERTYPE OF expressions, attributes of anonymous aggregate type (print_typechain), the class bodies (LIBstructor_print etc.), that the emitted C++ compiles') for t in (0, 1, 2)
+    out_of_claim='several attributes and their order, supertypes/subtypes lists, SUPERTYPE OF expressions, the descriptors of an anonymous aggregate type itself (print_typechain), the class bodies (LIBstructor_print etc.), that the emitted C++ compiles') for t in (0, 1, 2, 3)
 ]
 JOBS = 6
 MANIFEST = {
